@@ -19,9 +19,10 @@ SET_METHODS = ['SetInitialPoints', 'SetRandomInitialPoints', 'SetEvaluationLimit
                'enable_signal_handler', 'Solution', 'SetTermination']
 
 
-def _wrapper(h, anchor, classes, call, nret=5):
+def _wrapper(h, anchor, classes, call, nret=5, pairs=False):
     if not h.is_sym():
         h.unsupported('symbolic only (whole runs of the wrappers are compared natively by rtc/c01, c05, c08)')
+    x0_form = h.choice('x0_given_as', ['point', 'min-max-pairs']) if pairs else 'point'
     best = h.list_real('best_solution', nd=True)
     h.assume('len(best) >= 2', best=best)
     bestE = h.real('best_energy', inf=True)
@@ -55,10 +56,23 @@ def _wrapper(h, anchor, classes, call, nret=5):
         _ = r.cls.bases
         return None
 
+    starts = []
+
     def setter(name):
         def f(I, c, args, kwargs):
             if log['solve'] and name != 'Solution':
                 log['sets_after_solve'] += 1
+            if name == 'SetRandomInitialPoints':
+                # assumed contract (proved on the real method: C01/SetRandomInitialPoints/scalar-limits-are-rejected):
+                # limits that are plain numbers raise TypeError -- the DE wrappers rely on it to recognise a 2-parameter
+                # start POINT, which unpair() turns into two numbers
+                from pyvc.values import numkind, PyExc
+                lims = list(args[1:3]) + [kwargs[k_] for k_ in ('min', 'max') if k_ in kwargs]
+                if any(numkind(v) is not None for v in lims):
+                    raise PyExc('TypeError', "object of type 'float' has no len()")
+                starts.append(('random', lims))
+            if name == 'SetInitialPoints':
+                starts.append(('point', list(args[1:2])))
             return None
         return f
     table = {}
@@ -74,8 +88,21 @@ def _wrapper(h, anchor, classes, call, nret=5):
     table[(DE, 'DifferentialEvolutionSolver.SetConstraints')] = setter('SetConstraints')
     table[(DE, 'DifferentialEvolutionSolver2.SetConstraints')] = setter('SetConstraints')
     h.set_summaries(table)
-    x0 = h.vec('x0', 2)
+    if x0_form == 'point':
+        x0 = h.vec('x0', 2)
+    else:
+        lo, hi = [h.real('lo0'), h.real('lo1')], [h.real('hi0'), h.real('hi1')]
+        x0 = h.clist([h.tup(lo[0], hi[0]), h.tup(lo[1], hi[1])])
     r = call(h.get(anchor), cost, x0, cb)
+    if x0_form == 'point':
+        h.check('C01/a-start-point-is-installed-as-the-initial-point-and-nothing-is-drawn-instead', 'ok',
+                ok=(len(starts) == 1 and starts[0][0] == 'point' and starts[0][1][0] is x0))
+    else:
+        ok = len(starts) == 1 and starts[0][0] == 'random' and len(starts[0][1]) == 2
+        h.check('C01/min-max-pairs-become-the-limits-of-a-random-start', 'ok', ok=ok)
+        if ok:
+            h.check('C01/min-max-pairs-become-the-limits-of-a-random-start', 'len(a) == 2 and len(b) == 2 and a[0] == l0 and a[1] == l1 and b[0] == h0 and b[1] == h1',
+                    a=starts[0][1][0], b=starts[0][1][1], l0=lo[0], l1=lo[1], h0=hi[0], h1=hi[1])
     e = dict(r=r, best=best, bestE=bestE, gens=gens, evals=evals, maxiter=maxiter, maxfun=maxfun)
     h.check('C05/solve-invoked-once-with-the-callers-cost-and-callback-after-all-settings',
             'n == 1 and late == 0 and ok', n=len(log['solve']), late=log['sets_after_solve'],
@@ -101,13 +128,13 @@ def fmin_powell(h):
 @contract('C05/diffev', ['C05', 'C01'], DE + '::diffev', native=False)
 def diffev(h):
     _wrapper(h, DE + '::diffev', [(DE, 'DifferentialEvolutionSolver'), (DE, 'DifferentialEvolutionSolver2')],
-             lambda f, cost, x0, cb: h.call(f, cost, x0, 4, full_output=1, disp=0, callback=cb))
+             lambda f, cost, x0, cb: h.call(f, cost, x0, 4, full_output=1, disp=0, callback=cb), pairs=True)
 
 
 @contract('C05/diffev2', ['C05', 'C01'], DE + '::diffev2', native=False)
 def diffev2(h):
     _wrapper(h, DE + '::diffev2', [(DE, 'DifferentialEvolutionSolver'), (DE, 'DifferentialEvolutionSolver2')],
-             lambda f, cost, x0, cb: h.call(f, cost, x0, 4, full_output=1, disp=0, callback=cb))
+             lambda f, cost, x0, cb: h.call(f, cost, x0, 4, full_output=1, disp=0, callback=cb), pairs=True)
 
 
 # ---------------------------------------------------------------------------- lattice / buckshot / sparsity
